@@ -336,6 +336,16 @@ theorem directive_f (c0 : Ctx) (a : Val) (n : Num) (s : String) (hn : a.toNum? =
     (hs : f64Display n.asF64 = some s) : renderArgP c0 'f' a = .ok s := by
   simp [renderArgP, hn, hs]
 
+/-- `%f` inserts `f64Display` as it is (statement independent of the printer): floats with a short
+    exact decimal expansion as before, all other finite floats through the shortest round-trip
+    printer; an integer argument is converted first -/
+example (c0 : Ctx) : renderArgP c0 'f' (.float 0x3FE0000000000000) = .ok "0.5" :=
+  directive_f c0 _ (.f _) _ rfl (by decide)
+example (c0 : Ctx) : renderArgP c0 'f' (.float 0x3FB999999999999A) = .ok "0.1" :=
+  directive_f c0 _ (.f _) _ rfl (by decide)
+example (c0 : Ctx) : renderArgP c0 'f' (.int 3) = .ok "3" :=
+  directive_f c0 _ (.i 3) _ rfl (by decide)
+
 theorem directive_f_type_error (c0 : Ctx) (a : Val) (h : a.isNumber = false) :
     renderArgP c0 'f' a = .err .typeMismatch := by
   have := (C13.toNum?_none_iff a).2 h
